@@ -47,6 +47,12 @@ def _descends(e, depth=0):
 
 
 def run_e1b(prog, rep):
+    # audit of the program as written: no helper inlining / loop desugaring (see facts.Program.raw)
+    with prog.raw():
+        return _run_e1b(prog, rep)
+
+
+def _run_e1b(prog, rep):
     cg = prog.callgraph()
     sccs = [c for c in cg.sccs() if len(c) > 1 or (c[0] in cg.edges.get(c[0], ()))]
     n_edges = 0
@@ -68,10 +74,16 @@ def run_e1b(prog, rep):
                 for (b, t) in sites:
                     n_edges += 1
                     key = "%s -> %s" % (caller, callee_id)
+                    # findings are keyed by the caller's *type* (impl block) and the callee: merging or splitting methods of
+                    # one impl (a refactoring) keeps the identity of a recursion that is really there
+                    root = f
+                    while root.kind == "closure" and root.parent in prog.fns:
+                        root = prog.fns[root.parent]
+                    vkey = "%s -> %s" % ((root.self_path + "::*") if root.self_path else root.id, callee_id)
                     cf = prog.fns[callee_id]
                     # derived impls (Debug/PartialEq/Clone/Hash/Ord) recurse over the value they are given
                     if not t["args"]:
-                        rep.violation("E1.b", key, sp_str(t["sp"]), "recursive call without receiver")
+                        rep.violation("E1.b", vkey, sp_str(t["sp"]), "recursive call without receiver")
                         continue
                     recv = tr.operand(t["args"][0])
                     CLOSURE_MODE[0] = f.kind == "closure"
@@ -88,7 +100,7 @@ def run_e1b(prog, rep):
                     elif ok and (cf.name == f.name or cf.trait == f.trait) and _is_dispatch(f, t, b):
                         rep.ok("E1.b", key, sp_str(t["sp"]), "dispatch on the same value to the variant's payload handler")
                     else:
-                        rep.violation("E1.b", key, sp_str(t["sp"]),
+                        rep.violation("E1.b", vkey, sp_str(t["sp"]),
                                       "recursive call whose receiver is not a part of the caller's argument (not bounded by "
                                       "nesting depth): receiver = %s" % canon(recv)[:200])
     return sccs, n_edges
@@ -210,6 +222,12 @@ FINITE_ITERATORS = (
 
 
 def run_e1c(prog, rep):
+    # audit of the program as written: no helper inlining / loop desugaring (see facts.Program.raw)
+    with prog.raw():
+        return _run_e1c(prog, rep)
+
+
+def _run_e1c(prog, rep):
     mc, parser_by_id = must_consume_set(prog, rep)
     n_loops = 0
     stats = {"parser": 0, "finite-iterator": 0, "scan": 0, "cursor": 0, "other": 0}
